@@ -319,6 +319,8 @@ class Engine(Interp, ExprMixin, StmtMixin, CallMixin, MethodMixin):
             return a.term == b.term
         if isinstance(a, VStruct) and isinstance(b, VStruct):
             return self.land(*[self.same(a.f[k], b.f.get(k)) for k in a.f])
+        if isinstance(a, tuple) and isinstance(b, tuple):
+            return len(a) == len(b) and self.land(*[self.same(x, y) for x, y in zip(a, b)])
         if isinstance(a, VOpt) or isinstance(b, VOpt) or a is None or b is None:
             oa, ob = self.as_opt(a), self.as_opt(b)
             na = oa.none if z3.is_expr(oa.none) else z3.BoolVal(bool(oa.none))
